@@ -29,7 +29,7 @@ CONC = {
  'C15': ("thread lifecycle events (spawn / exit with virtual time) of the controlled runtime are validated by TLC: for every thread-creating operator x terminating cause (complete, error, unsubscribe, take / first / take_until / amb downstream) every library thread has exited at quiescence, at most one timer period after the subscription ended; TLC checks WorkerExitsAfterAbort on SchedQueue", '6 C15'),
  'C16': ("(virtual time, event) traces of interval / timer / delay / timeout / debounce / sample over a grid of periods and gap scripts, under every schedule within the bound, are validated by TLC against the timed definitions of the statement (L2 only: the timed behaviour is decided on recorded traces; no separate design model)", '6 C16'),
  'C18': ("TLC checks the lock-level model ToVec (poll || source: never ready before the terminal, EventuallyReady under weak fairness = no lost wake-up, result = items in order or the error); the real future is driven by a minimal executor built on the facade primitives with the source on another thread under every schedule within the bound and each trace is validated by TLC", '6 C18'),
- 'C11': ("TLC checks the lock-level design model of the subscriber slots / controller under racing emitters; the real merge / flat_map / zip / concat / amb (with and without take downstream) are executed with 2-3 emitting threads under every schedule within the preemption bound and each trace is validated by TLC: item conservation, per-input order, tuple pairing, one winner for amb, take(n) <= n, exactly one complete after the last item, never two terminals", '6 C11'),
+ 'C11': ("TLC checks the lock-level design models SinkConc (subscriber slots / controller under racing emitters) and CombConc (PlusCal: sink_complete's remove-and-decide critical section and amb's compare-or-elect under one lock: exactly one complete after every item, one winner); the real merge / flat_map / zip / concat / amb (with and without take downstream) are executed with 2-3 emitting threads under every schedule within the preemption bound and each trace is validated by TLC: item conservation, per-input order, tuple pairing, one winner for amb, take(n) <= n, exactly one complete after the last item, never two terminals", '6 C11'),
  'C12': ("TLC checks the lock-level design model SubjectConc (producer / late subscriber / unsubscriber on plain, Behavior and Replay subjects: no duplicate, no gap, order); the real subjects are executed with 1-2 producer threads, a subscribing and an unsubscribing thread under every schedule within the bound and each trace is validated by TLC", '6 C12'),
  'C19': ("TLC checks the lock-level design model SinkConc for all scripts of 2-3 threads (at most one terminal, nothing whose delivery started after the terminal returned, exactly one terminal survives a race); every multi-input operator and the four subject types are executed with racing terminals / items under every schedule within the bound and each trace is validated by TLC", '6 C19'),
 }
